@@ -255,7 +255,7 @@ class Check:
 
     # ------------------------------------------------------------ finish
     def finish(self, extra_coverage=None, explanation=None):
-        aud = audit_mod.audit(self.pid)
+        aud = audit_mod.audit(self.pid, self.tier)
         broken = [t for t in aud["theorems"] if not t["ok"]]
         # VERIF_OUT_DIR redirects evidence and replays (used only when the checks are pointed at a scratch tree with a seeded change)
         outdir = os.environ.get("VERIF_OUT_DIR") or VERIF
@@ -304,7 +304,7 @@ class Check:
             "checker_cmd": "cd lean && lake build Prtpy PrtpyProofs prtpy_model && lake env lean .lake/audit/Audit_%s.lean  (#print axioms of every registered theorem)" % self.pid,
             "trusted_base": TRUSTED_BASE + self.assumptions,
             "theorems": aud["theorems"], "stated_not_proven": aud["stated_not_proven"],
-            "forbidden_construct_hits": aud["forbidden_hits"],
+            "forbidden_construct_hits": aud["forbidden_hits"], "leanchecker": aud.get("leanchecker", "not run (thorough tier only)"),
             "evaluations": self.evaluations + self.stats["certified"]["evaluations"] + self.stats["direct-evaluation"]["evaluations"],
             "distinct_nontrivial": len(self.nontrivial), "distinct_inputs": len(self.distinct),
             "rule": self.rule,
@@ -324,8 +324,9 @@ class Check:
         ev = {"property_id": self.pid, "tier": "thorough" if self.tier == "thorough" else "quick", "seed": self.seed,
               "level": self.level, "coverage": cov, "assumptions": TRUSTED_BASE + self.assumptions,
               "wall_s": round(time.time() - self.t0, 2), "violations": len(violations)}
-        with open(os.path.join(outdir, "evidence", f"{self.pid}.json"), "w") as f:
-            json.dump(ev, f, indent=1, default=str)
+        if not getattr(self, "replay_mode", False):        # a replay re-judges one case; it does not replace the evidence of a full run
+            with open(os.path.join(outdir, "evidence", f"{self.pid}.json"), "w") as f:
+                json.dump(ev, f, indent=1, default=str)
         for d in self.disagreements[:5]:
             print(f"  disagreement [{d['stream']}] {d['request']} fmt={d['fmt']} out={d['outtype']}: impl={json.dumps(d['impl'], default=str)[:300]} "
                   f"model={json.dumps(d['model'], default=str)[:300]}", file=sys.stderr)
